@@ -121,7 +121,7 @@ UTF8String__process(const UTF8String_t *st, uint32_t *dst, size_t dstlen) {
 	size_t length;
 	uint8_t *buf = st->buf;
 	uint8_t *end = buf + st->size;
-	uint32_t *dstend = dst + dstlen;
+	uint32_t *dstend = dst ? dst + dstlen : 0;	/* no NULL+0 arithmetic */
 
 	for(length = 0; buf < end; length++) {
 		int ch = *buf;
